@@ -15,7 +15,6 @@ def run(tier, seed):
     ctx = Context(PID, tier, seed)
     ctx.run_deductive(MODULES, targets())
     ctx.trusted.extend(['A-json: json.loads(json.dumps(x)) == x on JSON values; ensure_ascii=False emits valid UTF-8',
-                        'A-datetime: str(datetime) is the ISO layout get_date parses',
                         'z3; pyvc encoding of the Python subset'])
     ctx.assumptions.extend(['TERMINATION not verified',
                             'creation metadata (e.g. the tddafile path recorded on load) is not part of the constraint set'])
@@ -24,5 +23,12 @@ def run(tier, seed):
                      'get_date on non-strings; initialize_from_dict / to_json / load end to end are bounded')
     from bounded import serial_bounded as sb
     from bounded.core import attach
+    import time
+    t = time.time()
+    n, bad = sb.date_text_roundtrip()
+    ctx.add_exhaustive('base.get_date.inverts-the-written-date-text', n, bad[:50], time.time() - t, True,
+                       sample={'domain': 'every microsecond value 0..999999 x {str(d), d.isoformat()}; every (month, day) of a leap '
+                                         'year, every hour, minute, second; years 1..9999 at 9 values; date-only texts',
+                               'claim': 'get_date(text written for a date bound) == that datetime'})
     attach(ctx, sb.run((PID,), tier, seed))
     return finish(ctx, 'other')
